@@ -22,7 +22,8 @@ class Graph(object):
     input literals in increasing order, normalised to tt(0..0) = 0; XOR of two LUT atoms over the same inputs is
     one LUT atom (truth tables xor-ed), so table-driven AES (T-tables) and S-box + MixColumns AES meet."""
 
-    def __init__(self, affine=False):
+    def __init__(self, affine=False, canon_sums=False):
+        self.canon_sums = canon_sums or affine
         self.kind = [0, 0]
         self.a = [0, 0]
         self.b = [0, 0]
@@ -36,6 +37,8 @@ class Graph(object):
         self.form_hash = {}     # (mask, frozenset) -> node
         self.lut = {}           # kind-5 node -> (ins tuple of positive literals, tt int)
         self.lut_hash = {}
+        self.sums = {}          # result literals -> (sorted operand literal tuples, constant): canonical modular sums
+        self.sum_cache = {}
         self._lut_cache = {}
         self._ltt_cache = {}
         self._mux_cache = {}
@@ -453,9 +456,9 @@ G = Graph()
 T.AIG = __import__('sys').modules[__name__]
 
 
-def reset(affine=False):
+def reset(affine=False, canon_sums=False):
     global G
-    G = Graph(affine)
+    G = Graph(affine, canon_sums)
     return G
 
 
@@ -510,6 +513,37 @@ def add_bits(a, b, cin=0):
     return out, c
 
 
+def add_canonical(a, b, w):
+    """canonical mode: modular sums are flattened to (multiset of non-sum operands, constant) and re-added in a fixed
+    operand order, so a + (b + c), (a + b) + c and (c + a) + b are the same literals.  The flattening is keyed by the
+    result's literals (G.sums), not by the Python object, so values that went through memory keep their form"""
+    terms, const = [], 0
+    for x in (a, b):
+        if not isinstance(x, AV):
+            const = (const + x) & ((1 << w) - 1)
+            continue
+        f = G.sums.get(tuple(x.bits))
+        if f is None:
+            terms.append(tuple(x.bits))
+        else:
+            terms.extend(f[0])
+            const = (const + f[1]) & ((1 << w) - 1)
+    terms.sort()
+    key = (tuple(terms), const)
+    r = G.sum_cache.get(key)
+    if r is None:
+        acc = list(terms[0])
+        for t in terms[1:]:
+            acc = add_bits(acc, list(t))[0]
+        if const:
+            acc = add_bits(acc, const_bits(const, w))[0]
+        r = tuple(acc)
+        G.sum_cache[key] = r
+        if len(terms) > 1 or const:
+            G.sums.setdefault(r, key)
+    return mkv(list(r))
+
+
 def binop(op, a, b, w):
     ab, bb = bits_of(a, w), bits_of(b, w)
     if op == "and":
@@ -519,6 +553,8 @@ def binop(op, a, b, w):
     if op == "xor":
         return mkv([G.XOR(x, y) for x, y in zip(ab, bb)])
     if op == "add":
+        if G.canon_sums:
+            return add_canonical(a, b, w)
         return mkv(add_bits(ab, bb)[0])
     if op == "sub":
         return mkv(add_bits(ab, [y ^ 1 for y in bb], 1)[0])
